@@ -289,7 +289,15 @@ func (c *Ctx) FnPos(fn *ssa.Function) string {
 func (c *Ctx) Rule(id, doc string, body func()) {
 	c.curRule = id
 	c.RuleDocs = append(c.RuleDocs, id+": "+doc)
+	t0 := time.Now()
 	defer func() {
+		if c.Extra["rule_wall_s"] == nil {
+			c.Extra["rule_wall_s"] = map[string]float64{}
+		}
+		c.Extra["rule_wall_s"].(map[string]float64)[id] = time.Since(t0).Seconds()
+		if os.Getenv("VERIF_TIMING") != "" {
+			fmt.Fprintf(os.Stderr, "  [%s %.2fs]\n", id, time.Since(t0).Seconds())
+		}
 		if r := recover(); r != nil {
 			if a, ok := r.(anchorErr); ok {
 				c.Obs = append(c.Obs, &Obligation{Rule: id, Construct: "anchor", Status: "undecided", Detail: "unresolved anchor: " + a.msg})
